@@ -44,6 +44,10 @@ def _datas(tier, seed):
     # the same features at a tiny scale (kernel entries ~1e-12): an absolute cut-off in the code shows here
     out.append(("G5x2-tiny", ((np.array(fam.generic_list(5, 2, seed, 1)[0]) + 0.75) * 1e-6).tolist()))
     out.append(("G5x2-tiny9", ((np.array(fam.generic_list(5, 2, seed, 1)[0]) + 0.75) * 1e-9).tolist()))
+    # features with a large common offset (2^10): kernel entries ~1e6 whose centred part is O(1) - a one-pass
+    # E[k^2] - E[k]^2 style formula cancels catastrophically here, the two-pass definition does not
+    out.append(("G5x2-off", (np.array(fam.generic_list(5, 2, seed, 1)[0]) + 0.75 + 1024.0).tolist()))
+    out.append(("G7x4-off", (np.array(fam.generic_list(7, 4, seed, 1)[0]) + 0.75 + 1024.0).tolist()))
     # integer-valued features: the kernels are integer matrices and may be handed over with an integer dtype
     rng = np.random.default_rng([seed, 1212])
     out.append(("I5x3-int", rng.integers(-3, 4, size=(5, 3)).astype(float).tolist()))
